@@ -540,9 +540,7 @@ func racePair(block []string) string {
 		if outer == "" && len(s) > 0 {
 			outer = s[0]
 		}
-		if i := strings.Index(outer, "("); i > 0 {
-			outer = outer[:i]
-		}
+		outer = strings.TrimSuffix(strings.TrimSpace(outer), "()")
 		names = append(names, outer)
 	}
 	sort.Strings(names)
